@@ -226,7 +226,8 @@ fn do_round(tid: usize, ri: usize, r: &Round, handover_holder: bool) {
     let what = format!("thread {tid} round {ri} ({} / {})", r.kind, r.exit);
     let res = catch_unwind(AssertUnwindSafe(|| {
         if r.kind == "injector" {
-            let mut inj = InjectorPP::new();
+            // every public way of obtaining an injector takes the process-wide guard
+            let mut inj = if (tid + ri + r.calls as usize) % 3 == 1 { InjectorPP::default() } else { InjectorPP::new() };
             let c = IN_CS.fetch_add(1, Ordering::SeqCst) + 1;
             if c > 1 {
                 viol("two-guards-live-at-once", format!("{what}: obtained an injector while {} other guard(s) were live", c - 1));
